@@ -36,6 +36,67 @@ theorem percentileOf_perm {l₁ l₂ : List Nat} (h : l₁.Perm l₂) (pct : Rat
   unfold percentileOf
   rw [h.length_eq, sortNat_perm_eq h]
 
+/-! ## convert_to_int: the scale depends on the multiset of pixels only -/
+
+theorem qfoldl_max_ge_init (l : List Rat) : ∀ a : Rat, a ≤ l.foldl max a := by
+  induction l with
+  | nil => intro a; simp
+  | cons x l ih => intro a; simp only [List.foldl_cons]; exact le_trans (le_max_left a x) (ih _)
+
+theorem qfoldl_max_ge_mem (l : List Rat) : ∀ (a x : Rat), x ∈ l → x ≤ l.foldl max a := by
+  induction l with
+  | nil => intro a x h; simp at h
+  | cons y l ih =>
+    intro a x h
+    simp only [List.foldl_cons]
+    rcases List.mem_cons.mp h with rfl | h'
+    · exact le_trans (le_max_right a x) (qfoldl_max_ge_init l _)
+    · exact ih _ x h'
+
+theorem qfoldl_max_mem (l : List Rat) : ∀ a : Rat, l.foldl max a = a ∨ l.foldl max a ∈ l := by
+  induction l with
+  | nil => intro a; simp
+  | cons y l ih =>
+    intro a
+    simp only [List.foldl_cons]
+    rcases ih (max a y) with h | h
+    · rw [h]
+      rcases max_choice a y with h' | h'
+      · left; exact h'
+      · right; rw [h']; simp
+    · right; exact List.mem_cons_of_mem _ h
+
+/-- `image.max()` as `convertToInt` computes it -/
+def gmax (xs : List Rat) : Rat := xs.foldl max (xs.headD 0)
+
+theorem gmax_spec (xs : List Rat) (hne : xs ≠ []) : gmax xs ∈ xs ∧ ∀ x ∈ xs, x ≤ gmax xs := by
+  cases xs with
+  | nil => exact absurd rfl hne
+  | cons a t =>
+    unfold gmax
+    simp only [List.headD_cons]
+    refine ⟨?_, fun x hx => qfoldl_max_ge_mem _ a x hx⟩
+    rcases qfoldl_max_mem (a :: t) a with h | h
+    · rw [h]; simp
+    · exact h
+
+theorem gmax_perm {xs ys : List Rat} (h : xs.Perm ys) : gmax xs = gmax ys := by
+  by_cases hx : xs = []
+  · subst hx
+    have : ys = [] := List.Perm.nil_eq h |>.symm
+    subst this; rfl
+  · have hy : ys ≠ [] := by
+      intro e; subst e; exact hx (List.Perm.eq_nil h)
+    obtain ⟨m1, b1⟩ := gmax_spec xs hx
+    obtain ⟨m2, b2⟩ := gmax_spec ys hy
+    exact le_antisymm (b2 _ (h.subset m1)) (b1 _ (h.symm.subset m2))
+
+/-- the per-pixel conversion of `convert_to_int` for an image whose maximum is `mx` -/
+def convPixel (mx : Rat) (x : Rat) : Nat :=
+  ((if mx = 0 then 1 else 255 / mx) * (max x 0)).floor.toNat
+
+theorem convertToInt_eq (xs : List Rat) : convertToInt xs = xs.map (convPixel (gmax xs)) := rfl
+
 /-! ## a content image on a black canvas -/
 
 /-- on every axis the content (extent `n`) placed at `o` fits into the canvas (extent `N`) -/
